@@ -408,7 +408,11 @@ func (v *Verifier) solveAll(results []*FuncResult) {
 			text := j.c.buildQuery(j.o)
 			j.o.Query = text
 			q := &Query{Name: j.o.Name, Text: text}
-			j.o.Res = solve(q, v.Opts.WorkDir, v.Opts.TimeoutS, v.Opts.Solvers)
+			to := v.Opts.TimeoutS
+			if v.knownNames[j.o.Name] && to > 6 {
+				to = 6 // listed findings are expected to fail: do not spend the full limit on them
+			}
+			j.o.Res = solve(q, v.Opts.WorkDir, to, v.Opts.Solvers)
 			if v.Opts.TwoSolvers && j.o.Res.Verdict == "unsat" {
 				// thorough: a second, different solver must agree
 				var others []string
